@@ -195,9 +195,24 @@ void prop(const Case& cs) {
       check_compact(c, op.arg(0) & 1);
       vf::label("compact");
     } else if (op.name == "copy") {
-      update_theta_sketch cp(c.sk);
-      c.sk = std::move(cp);
-      vf::label("copy");
+      const unsigned mode = static_cast<unsigned>(op.uarg(0) % 4);
+      if (mode == 0) {
+        update_theta_sketch cp(c.sk);
+        c.sk = std::move(cp);
+        vf::label("copy");
+      } else {
+        // a sketch of ANOTHER configuration is overwritten by assignment and then takes the place of the sketch under test (by
+        // move construction): the whole configuration (lg_k, p, seed, resize factor) has to travel with the assigned value,
+        // which shows at the next reset / rebuild / update
+        update_theta_sketch::builder ob;
+        ob.set_lg_k(lg_k == 5 ? 7 : 5).set_p(p < 1.0f ? 1.0f : 0.25f).set_seed(seed + 17).set_resize_factor(static_cast<update_theta_sketch::resize_factor>((rf + 1) & 3));
+        update_theta_sketch other = ob.build();
+        if (mode == 3) for (int64_t i = 0; i < 40; ++i) other.update(i);
+        if (mode == 1) { other = c.sk; vf::label("copy-assign-over-other-config"); }
+        else { update_theta_sketch cp(c.sk); other = std::move(cp); vf::label("move-assign-over-other-config"); }
+        c.sk.~update_theta_sketch();
+        new (&c.sk) update_theta_sketch(std::move(other));
+      }
     } else continue;
     if (!big || &op == &cs.ops.back()) check_state(c, op.name.c_str());
   }
@@ -223,7 +238,7 @@ rc::Gen<Case> gen_main() {
       {1, op0("trim")},
       {1, rc::gen::map(range(0, 99), [](int64_t x) { return x < 25 ? Op{"reset", {}} : Op{"trim", {}}; })},
       {1, op1("compact", range(0, 1))},
-      {1, op0("copy")},
+      {2, op1("copy", range(0, 3))},
   });
   return make_case({{"lg_k", rc::gen::weightedOneOf<int64_t>({{8, range(5, 7)}, {3, range(8, 10)}, {1, range(11, 13)}})},
                     {"rf", range(0, 3)},
